@@ -125,16 +125,11 @@ Definition fast_pkgs (w : world) (R : repo) (negate : bool) (cats_iter : list st
       end
   end.
 
-(* _fast_identify_candidates(restrict, sorter) as a set of (category, package) keys *)
-Definition fast (w : world) (R : repo) (r : restr) : list cp :=
-  let coll := pl false r in
-  let cms := cat_ms w coll in
-  let pms := pkg_ms w coll in
-  let negate := rneg r in
-  let cat_exact := if negate then [] else exacts cms in
-  let pkg_exact := if negate then [] else exacts pms in
-  let cat_rest := rest cms in
-  let pkg_rest := rest pms in
+(* the decision ladder of _fast_identify_candidates on the extracted exact names / other value
+   restrictions, as a set of (category, package) keys *)
+Definition fast_body (w : world) (R : repo) (negate : bool)
+           (cat_exact : list str) (cat_rest : list vmatch)
+           (pkg_exact : list str) (pkg_rest : list vmatch) : list cp :=
   match cat_exact with
   | _ :: _ =>
       match cat_rest, cat_exact with
@@ -153,37 +148,49 @@ Definition fast (w : world) (R : repo) (r : restr) : list cp :=
       end
   end.
 
+(* _fast_identify_candidates(restrict, sorter) *)
+Definition fast (w : world) (R : repo) (r : restr) : list cp :=
+  let coll := pl false r in
+  let cms := cat_ms w coll in
+  let pms := pkg_ms w coll in
+  let negate := rneg r in
+  fast_body w R negate (if negate then [] else exacts cms) (rest cms)
+            (if negate then [] else exacts pms) (rest pms).
+
 Definition nonempty {A} (l : list A) : bool := match l with [] => false | _ => true end.
 (* one entry of dsolutions *)
 Definition clause_cp (w : world) (cl : clause) : list vmatch * list vmatch :=
   let c := flat_map (pl true) cl in (cat_ms w c, pkg_ms w c).
 
-(* _identify_candidates(restrict, sorter); None = an exception *)
+(* _identify_candidates for a boolean grouping: the analysis of the normal form; None = an exception *)
+Definition identify_dnf (w : world) (R : repo) (r : restr) : option (list cp) :=
+  match dnf true r with
+  | inr _ => None
+  | inl s =>
+      let ds := map (clause_cp w) s in
+      if existsb (fun x => negb (nonempty (fst x)) && negb (nonempty (snd x))) ds
+      then Some (all_cp R)
+      else
+        match ds with
+        | [] => None                                     (* dsolutions[0] *)
+        | d0 :: tl =>
+            let cspec := nonempty (fst d0) in
+            let pspec := nonempty (snd d0) in
+            if existsb (fun x => negb (Bool.eqb (nonempty (fst x)) cspec)) tl then
+              if existsb (fun x => negb (Bool.eqb (nonempty (snd x)) pspec)) tl
+              then Some (all_cp R)
+              else Some (package_filter w R (categories R) (flat_map snd ds) false)
+            else if existsb (fun x => negb (Bool.eqb (nonempty (snd x)) pspec)) tl
+            then Some (cps_of R (cat_filter w R (flat_map fst ds) false))
+            else Some (fast w R r)
+        end
+  end.
+
+(* _identify_candidates(restrict, sorter) *)
 Definition identify (w : world) (R : repo) (r : restr) : option (list cp) :=
   match r with
   | Node KAtom _ _ => Some (fast w R r)
-  | Node _ _ _ =>
-      match dnf true r with
-      | inr _ => None
-      | inl s =>
-          let ds := map (clause_cp w) s in
-          if existsb (fun x => negb (nonempty (fst x)) && negb (nonempty (snd x))) ds
-          then Some (all_cp R)
-          else
-            match ds with
-            | [] => None                                     (* dsolutions[0] *)
-            | d0 :: tl =>
-                let cspec := nonempty (fst d0) in
-                let pspec := nonempty (snd d0) in
-                if existsb (fun x => negb (Bool.eqb (nonempty (fst x)) cspec)) tl then
-                  if existsb (fun x => negb (Bool.eqb (nonempty (snd x)) pspec)) tl
-                  then Some (all_cp R)
-                  else Some (package_filter w R (categories R) (flat_map snd ds) false)
-                else if existsb (fun x => negb (Bool.eqb (nonempty (snd x)) pspec)) tl
-                then Some (cps_of R (cat_filter w R (flat_map fst ds) false))
-                else Some (fast w R r)
-            end
-      end
+  | Node _ _ _ => identify_dnf w R r
   | _ => Some (fast w R r)
   end.
 
